@@ -89,6 +89,10 @@ func (c16) Generate(r *sim.Rand, tier string) *sim.Scenario {
 			if r.Bool(0.3) {
 				sc.Steps = append(sc.Steps, sim.Step{C: 1, Op: "weights", Out: -1})
 			}
+		case r.Bool(0.04):
+			// the layer value is copied (FC has exported fields; copying it is
+			// ordinary Go) and the copy is used from here on
+			sc.Steps = append(sc.Steps, sim.Step{C: 1, Op: "clone", Out: -1})
 		case len(pending) == 0 && r.Bool(0.15):
 			// second and later use of the SAME parameter object: reset it in place
 			sc.Steps = append(sc.Steps, sim.Step{C: 1, Op: "reset", N: r.Intn(2), B: r.Bool(0.85), Out: -1})
@@ -279,6 +283,19 @@ func (prop c16) Execute(sc *sim.Scenario) *sim.Outcome {
 		switch st.Op {
 		case "weights":
 			if !checkPointers(where, true) {
+				return fin()
+			}
+		case "clone":
+			nfc := *fc
+			fc = &nfc
+			w2 := fc.Weights()
+			if len(w2) != 2 || w2[0].Value == nil || w2[1].Value == nil {
+				out.Fail("weights-pointers", "%s: Weights() of a copied layer did not return two parameters", where)
+				return fin()
+			}
+			ptr = [2]*tensor.Tensor{w2[0].Value, w2[1].Value}
+			out.Faults["layer-copied-by-value"]++
+			if !checkPointers(where, false) {
 				return fin()
 			}
 		case "swap":
